@@ -73,11 +73,14 @@ def run(ctx):
         ctx.attempt(r)
 
 
-def _stmt_value(f, name):
+def _stmt_value(f, name=None):
+    """the assignment defining the returned local"""
+    r = [s for s in f.node.body if isinstance(s, ast.Return)]
+    nm = r[-1].value.id if r and isinstance(r[-1].value, ast.Name) else name
     for s in walk_function(f.node):
-        if isinstance(s, ast.Assign) and isinstance(s.targets[0], ast.Name) and s.targets[0].id == name:
+        if isinstance(s, ast.Assign) and isinstance(s.targets[0], ast.Name) and s.targets[0].id == nm:
             return s
-    return None
+    raise AnalysisError("%s: definition of the returned value not found" % f.key)
 
 
 def _curves(ctx):
@@ -273,7 +276,17 @@ def _pram(ctx):
         st = [s for s in fn.node.body if isinstance(s, ast.Assign) and is_self_attr(s.targets[0], "_M_sigma")]
         if len(st) != 1:
             raise AnalysisError("%s: M_sigma definition not found" % fn.key)
-        ms.append((fn, st[0], to_nf(st[0].value, atom=atom)))
+        loc = {}
+        for x in walk_function(fn.node):
+            if isinstance(x, ast.Assign) and isinstance(x.targets[0], ast.Name) and isinstance(x.value, ast.Attribute) and \
+                    is_self_attr(x.value.value, "_assessment_parameters"):
+                loc[x.targets[0].id] = x.value.attr
+
+        def atom_m(e, loc=loc):
+            if isinstance(e, ast.Name) and e.id in loc:
+                return loc[e.id]
+            return atom(e)
+        ms.append((fn, st[0], to_nf(st[0].value, atom=atom_m)))
     if ms[0][2] == ms[1][2] == to_nf(parse_expr("a_M*R_m/1000 + b_M")):
         ctx.holds(ms[1][0], ms[1][1], "M_sigma = a_M * 1e-3 * R_m + b_M in both damage parameters")
     else:
@@ -362,8 +375,12 @@ def _beta(ctx):
         else:
             ctx.violated(f, lst[0], "tabulated beta(%g) = %g but -Phi^-1(%g) = %.4f" % (pa, b, pa, ref), text="beta %g %g" % (pa, b))
     loop = [s for s in walk_function(f.node) if isinstance(s, ast.For)]
-    ok = loop and any(isinstance(x, ast.If) and "np.isclose(input_parameters.P_A, P_A)" in norm_text(x.test) and
-                      isinstance(x.body[-1], ast.Return) and norm_text(x.body[-1].value) == "beta" for x in loop[0].body)
+    ok = False
+    if loop and isinstance(loop[0].target, ast.Tuple) and len(loop[0].target.elts) == 2 and \
+            isinstance(loop[0].iter, ast.Name) and loop[0].iter.id == lst[0].targets[0].id:
+        pa_n, be_n = [t.id for t in loop[0].target.elts]
+        ok = any(isinstance(x, ast.If) and norm_text(x.test) == "np.isclose(input_parameters.P_A, %s)" % pa_n and
+                 isinstance(x.body[-1], ast.Return) and norm_text(x.body[-1].value) == be_n for x in loop[0].body)
     if ok:
         ctx.holds(f, loop[0], "beta is looked up by the requested P_A")
     else:
@@ -375,9 +392,14 @@ def _beta(ctx):
         if len(br) != 1:
             raise AnalysisError("%s.gamma_L: P_L branch not found" % cls)
 
-        def atom(e, sd=sd):
+        bnames = [s_.targets[0].id for s_ in g.node.body if isinstance(s_, ast.Assign) and isinstance(s_.targets[0], ast.Name)
+                  and isinstance(s_.value, ast.Call) and isinstance(s_.value.func, ast.Attribute) and s_.value.func.attr == "_get_beta"]
+
+        def atom(e, sd=sd, bnames=bnames):
             if isinstance(e, ast.Attribute) and e.attr == sd:
                 return "SD"
+            if isinstance(e, ast.Name) and e.id in bnames:
+                return "beta"
             if isinstance(e, ast.Name):
                 return e.id
             return None
@@ -395,18 +417,28 @@ def _beta(ctx):
     else:
         ctx.violated(g2, n2, "alpha of the normal (%r / %r on %s) and log-normal (%r / %r on %s) load safety factors do not share "
                      "the shape (0.7 beta - 2) s | 0.7 beta s keyed on P_L = 2.5" % (a1, b1, t1, a2, b2, t2))
-    r1 = [s for s in g1.node.body if isinstance(s, ast.Assign) and isinstance(s.targets[0], ast.Name) and s.targets[0].id == "gamma_L"]
+    def returned_def(fn):
+        r = [s_ for s_ in fn.node.body if isinstance(s_, ast.Return)][-1]
+        if isinstance(r.value, ast.Name):
+            return [s_ for s_ in fn.node.body if isinstance(s_, ast.Assign) and isinstance(s_.targets[0], ast.Name)
+                    and s_.targets[0].id == r.value.id]
+        return []
+    r1 = returned_def(g1)
+    alpha1 = n1.body[0].targets[0].id if isinstance(n1.body[0], ast.Assign) and isinstance(n1.body[0].targets[0], ast.Name) else None
+    lmax = [s_.targets[0].id for s_ in g1.node.body if isinstance(s_, ast.Assign) and isinstance(s_.targets[0], ast.Name) and
+            isinstance(s_.value, ast.Call) and isinstance(s_.value.func, ast.Attribute) and s_.value.func.attr == "maximum_absolute_load"]
     try:
-        ok = r1 and to_nf(r1[0].value) == to_nf(parse_expr("(L_max + alpha_L)/L_max"))
+        ok = r1 and alpha1 and lmax and to_nf(r1[0].value) == to_nf(parse_expr("(%s + %s)/%s" % (lmax[0], alpha1, lmax[0])))
     except NFUnsupported:
         ok = False
     if ok:
         ctx.holds(g1, r1[0], "normal: gamma_L = (L_max + alpha_L)/L_max")
     else:
         ctx.violated(g1, r1[0] if r1 else g1.node, "normal load safety factor is not (L_max + alpha_L)/L_max")
-    r2 = [s for s in g2.node.body if isinstance(s, ast.Assign) and isinstance(s.targets[0], ast.Name) and s.targets[0].id == "gamma_L"]
+    r2 = returned_def(g2)
+    alpha2 = n2.body[0].targets[0].id if isinstance(n2.body[0], ast.Assign) and isinstance(n2.body[0].targets[0], ast.Name) else None
     ok = r2 and isinstance(r2[0].value, ast.Call) and call_name(r2[0].value) == "max" and \
-        {norm_text(a) for a in r2[0].value.args} == {"1", "10 ** alpha_LSD"}
+        {norm_text(a) for a in r2[0].value.args} == {"1", "10 ** %s" % alpha2}
     if ok:
         ctx.holds(g2, r2[0], "log-normal: gamma_L = max(1, 10^alpha)")
     else:
@@ -446,12 +478,13 @@ def _half(ctx):
 
         def atom(e):
             if isinstance(e, ast.Name):
-                return e.id
+                return "N"
             if isinstance(e, ast.Subscript) and const_value(e.slice) == "N":
                 return "N"
             return None
         try:
-            ok = to_nf(a, atom=atom) == to_nf(parse_expr("1/N")) and to_nf(b, atom=atom) == to_nf(parse_expr("1/(2*N)"))
+            ok = to_nf(a, atom=atom) == to_nf(parse_expr("1/N")) and to_nf(b, atom=atom) == to_nf(parse_expr("1/(2*N)")) and \
+                len({x.id for x in ast.walk(a) if isinstance(x, ast.Name)} | {x.id for x in ast.walk(b) if isinstance(x, ast.Name)}) <= 1
         except NFUnsupported:
             ok = False
         if ok:
@@ -469,7 +502,8 @@ def _half(ctx):
     if len(ns) != 2:
         raise AnalysisError("expected two copies of the P_RAM cycle formula, found %d" % len(ns))
     a = norm_text(rename(ns[0][1].value, {"_P_RAM_Z": "REF"})).replace("self.REF", "REF")
-    b = norm_text(rename(ns[1][1].value, {"P_RAM_reduced": "REF"}))
+    loc_names = sorted({x.id for x in ast.walk(ns[1][1].value) if isinstance(x, ast.Name) and x.id not in ("np", "self")})
+    b = norm_text(rename(ns[1][1].value, {loc_names[0]: "REF"})) if len(loc_names) == 1 else norm_text(ns[1][1].value)
     if a == b:
         ctx.holds(ns[1][0], ns[1][1], "N formula in N_max_bearable == constructor's formula with P_RAM_Z -> reduced reference point")
     else:
